@@ -32,6 +32,9 @@ var (
 	lockFn  func(kind, name string, gid int64)
 	// BeforeCrash is called (if set) just before a crash action kills the process.
 	BeforeCrash func(name string, hit int64)
+	// OnShutdown is called (if set) by a shutdown action: the process is being stopped while the operation that
+	// reached the point is in flight (the store is closed under it); the operation then continues.
+	OnShutdown func(name string, hit int64)
 )
 
 // Install installs the dispatcher and parses VERIF_HOOKS.
@@ -69,6 +72,8 @@ func Parse(spec string) error {
 			a.kind = "count"
 		case act == "crash":
 			a.kind = "crash"
+		case act == "shutdown":
+			a.kind = "shutdown"
 		case strings.HasPrefix(act, "sleep:"):
 			a.kind = "sleep"
 			d := act[len("sleep:"):]
@@ -182,6 +187,10 @@ func dispatch(kind, name string) {
 			time.Sleep(a.dur)
 		case "call":
 			a.fn(name, h)
+		case "shutdown":
+			if OnShutdown != nil {
+				OnShutdown(name, h)
+			}
 		case "crash":
 			if BeforeCrash != nil {
 				BeforeCrash(name, h)
